@@ -350,7 +350,12 @@ class ParallelRunner(SimpleRunner):
             cases = run.gen_cases(fam, size, seed + (1 if pin else 0))
             impl = run.run_impl(cases, threads=1, timeout=3600, pin=pin)
             if impl is None:
-                res.oracle_failures.append((None, 'the harness died while running the parallel cases', ''))
+                # the process aborted (a panic while panicking inside the crate's threads) or never came back: find the case
+                bad = run.run_impl_bisect(cases)
+                alone = bad is not None and run.run_impl([bad], timeout=180, threads=1) is None
+                res.oracle_failures.append((bad if alone else None,
+                                            'the harness process aborts or never returns on this parallel case' if alone
+                                            else 'the harness died while running the parallel cases', ''))
                 return
             if fam == 'par_x':
                 second = [c + ' ' + o.split(' ')[0] for c, o in zip(cases, impl)]
@@ -427,7 +432,9 @@ PROPS['C08'] = dict(
     runner=ParallelRunner(quick=[('par_x', 1500), ('par_y', 500), ('par_z', 500)], thorough=[('par_x', 40000), ('par_x@pinned', 20000), ('par_y', 10000), ('par_z', 10000)],
                           which={'terminate'}),
     rule='same runs as C07 under a 15 s watchdog per call and a thread census (with grace period) after each call; '
-         'consumer plans: drain / stop after k for every k / never ask; reader error; reader- and data-set-init failures',
+         'consumer plans: drain / stop after k for every k / never ask; reader error; reader- and data-set-init failures; '
+         'queue length 0 and zero threads as corner cases at the end of the trace family (the known findings D17 / D18 are replayed there); '
+         'the failing source of the real parallel runs keeps failing from its K-th read on',
     assumptions=ASSUME_PAR,
 )
 PROPS['C15'] = dict(
@@ -673,9 +680,9 @@ PROPS['C19'] = dict(
 PROPS['C20'] = dict(
     theorems=[],
     runner=SimpleRunner(quick=[('iter', 7), ('fa_zero', 1500), ('fq_zero', 1500), ('fa_hist', 3000), ('fq_hist', 3000),
-                               ('fa_fault', 4000), ('fq_fault', 4000)],
+                               ('fa_fault', 4000), ('fq_fault', 4000), ('fa_recode', 1000)],
                         thorough=[('iter', 11), ('fa_zero', 40000), ('fq_zero', 40000), ('fa_hist', 60000), ('fq_hist', 60000),
-                                  ('fa_fault', 80000), ('fq_fault', 80000)],
+                                  ('fa_fault', 80000), ('fq_fault', 80000), ('fa_recode', 20000)],
                         raw_oracle=lambda c, o, s: oracles.fused_oracle(c, o, s) if c.startswith('F ') else
                         (oracles.recset_iter_oracle(c, o, s) if c.startswith('R ') else oracles.iter_oracle(c, o, s)),
                         exact_kinds=('I',)),
@@ -685,7 +692,9 @@ PROPS['C20'] = dict(
          'random reader history dumps (reused sets, sets refilled with fewer records than before, sets left behind by errors) driven '
          'step by step: size hint brackets the remaining count, item count = len(), fused; owned/next iteration over sources that report '
          'Ok(0) and deliver data later (fusedness; no model involved); histories with failing reads and seeks and refusing policies: '
-         'once the end was reported only a seek that SUCCEEDS lets the reader deliver again',
+         'once the end was reported only a seek that SUCCEEDS lets the reader deliver again; on every FASTA record any reader hands out '
+         '(LF, CRLF and mixed files, empty lines, lines that are a lone CR) seq_lines() is driven to its end and past it: len() = number of '
+         'lines from the front = from the back = num_seq_lines(), hints bracket, fused',
     assumptions=[],
 )
 
